@@ -230,6 +230,73 @@ def run(ctx):
     rule_idmt(ctx)
     rule_unit(ctx)
     rule_pure(ctx)
+    rule_settings(ctx)
+
+
+OCM = "pandapower.protection.protection_devices.ocrelay"
+PAIRS = {("switch_id", "switch_id"), ("t_g", "t_g"), ("t_gg", "t_gg"), ("t_g", "t_grade"), ("t_gg", "tms"), ("t_grade", "t_grade"), ("tms", "tms")}
+
+
+def rule_settings(ctx):
+    R = "SETTING-ROLE"
+    ctx.rule(R, "OCRelay.create_protection_function computes a pick-up current by the same formula in every relay type that has it "
+                "(I_g, I_gg of DTOC and IDTOC; I_s of IDMT and IDTOC): the factor that scales it is part of the device's settings, not "
+                "of the relay type; time_grading copies user time settings column by column under their names (t_g <- t_g | t_grade, "
+                "t_gg <- t_gg | tms): swapped stage times make the larger current trip later")
+    fi = ctx.repo.func(f"{OCM}:OCRelay.create_protection_function")
+    auto = {}
+    for br in ast.walk(fi.node):
+        if isinstance(br, ast.If) and "pickup_current_manual is None" in ast.unparse(br.test):
+            for st in br.body:
+                if isinstance(st, ast.Assign) and isinstance(st.targets[0], ast.Attribute) and ast.unparse(st.targets[0]).startswith("self.I_"):
+                    v = norm(inline_locals(fi.node, st.value), 300)
+                    auto.setdefault(st.targets[0].attr, []).append((v, st))
+    if len(auto) < 3:
+        ctx.fail(f"create_protection_function: automatic pick-up currents found for {sorted(auto)} only (confirmed: I_g, I_gg, I_s)")
+    for attr, vals in sorted(auto.items()):
+        forms = sorted({v for v, _ in vals})
+        ok = len(forms) == 1
+        odd = vals[-1][1]
+        ctx.ob(R, f"{OCM}::OCRelay.create_protection_function::{attr}", ok,
+               f"{attr} = {forms[0][:80]} in {len(vals)} relay type(s)" if ok else
+               f"{attr} is computed as `{forms[0][:90]}` in one relay type and as `{forms[1][:90]}` in another: the same settings give "
+               "different pick-up values, the relay does not trip exactly above the pick-up derived from its factor", fi.loc(odd))
+    ft = ctx.repo.func(f"{OCM}:time_grading")
+    n = 0
+    for br in ast.walk(ft.node):
+        if not (isinstance(br, ast.If) and "time_settings.columns" in ast.unparse(br.test)):
+            continue
+        layouts = [[e.value for e in lst.elts] for lst in ast.walk(br.test) if isinstance(lst, ast.List)
+                   and lst.elts and all(isinstance(e, ast.Constant) and isinstance(e.value, str) for e in lst.elts)]
+        for st in br.body:
+            if not (isinstance(st, ast.Assign) and isinstance(st.targets[0], ast.Subscript) and ast.unparse(st.targets[0].value) == "protection_time_settings"):
+                continue
+            n += 1
+            tk = st.targets[0].slice
+            tnames = [tk.value] if isinstance(tk, ast.Constant) else [e.value for e in tk.elts if isinstance(e, ast.Constant)] if isinstance(tk, ast.List) else []
+            bad = None
+            v = st.value
+            if isinstance(v, ast.Subscript) and ast.unparse(v.value) == "time_settings" and isinstance(v.slice, ast.Constant):
+                if (tnames[0] if tnames else None, v.slice.value) not in PAIRS:
+                    bad = f"`{norm(st, 80)}` stores the user's column '{v.slice.value}' as '{tnames[0] if tnames else '?'}'"
+            else:
+                pos = next((x for x in ast.walk(v) if isinstance(x, ast.Subscript) and isinstance(x.value, ast.Attribute) and x.value.attr == "iloc"), None)
+                cols = None
+                if pos is not None and isinstance(pos.slice, ast.Tuple) and len(pos.slice.elts) == 2 and isinstance(pos.slice.elts[1], ast.List) \
+                        and all(isinstance(e, ast.Constant) for e in pos.slice.elts[1].elts):
+                    cols = [e.value for e in pos.slice.elts[1].elts]
+                if cols is None or not layouts or len(cols) != len(tnames):
+                    bad = f"`{norm(st, 80)}` copies time settings by position in a way that cannot be matched to column names"
+                else:
+                    for lay in layouts:
+                        for t, c in zip(tnames, cols):
+                            if c >= len(lay) or (t, lay[c]) not in PAIRS:
+                                bad = bad or f"`{norm(st, 80)}`: for the layout {lay} column {c} ('{lay[c] if c < len(lay) else '?'}') is stored as '{t}'"
+            ctx.ob(R, f"{OCM}::time_grading::{norm(st.targets[0], 50)}<-{norm(v, 40)}", bad is None,
+                   "user time setting copied under its own role" if bad is None else bad +
+                   ": the stage times are exchanged, so a current above I>> trips later than one between I> and I>>", ft.loc(st))
+    if n < 6:
+        ctx.fail(f"time_grading: only {n} column copies of manual time settings found (confirmed: 11)")
 
 
 def variants(repo):
@@ -239,6 +306,10 @@ def variants(repo):
     return [
         V("fuse str sets characteristic index", fu, replace_once("        s = 'Protection Device: %s \\nType: %s \\nName: %s' % (self.__class__.__name__, self.fuse_type, self.name)\n",
                                                                  "        s = 'Protection Device: %s \\nType: %s \\nName: %s' % (self.__class__.__name__, self.fuse_type, self.name)\n        self.characteristic_index = 1\n"), "PURE-STR"),
+        V("IDTOC inverse pick-up from the wrong factor", oc, replace_once("                self.I_s = float(net_sc.line.max_i_ka.iloc[line_idx]) * self.inverse_overload_factor\n            else:\n                self.I_g = float(self.pickup_current_manual.I_g.iloc[self.switch_index])\n                self.I_gg = float(self.pickup_current_manual.I_g.iloc[self.switch_index])\n                self.I_s", "                self.I_s = float(net_sc.line.max_i_ka.iloc[line_idx]) * self.overload_factor\n            else:\n                self.I_g = float(self.pickup_current_manual.I_g.iloc[self.switch_index])\n                self.I_gg = float(self.pickup_current_manual.I_g.iloc[self.switch_index])\n                self.I_s"), "create_protection_function::I_s"),
+        V("manual stage times copied by position", oc, in_function("time_grading", replace_once("            protection_time_settings['t_g'] = time_settings['t_g']\n            protection_time_settings['t_gg'] = time_settings['t_gg']\n\n        if time_settings.columns.values.tolist() == ['switch_id', 'tms', 't_grade']:", "            protection_time_settings[['t_g', 't_gg']] = time_settings.iloc[:, [1, 2]].values\n\n        if time_settings.columns.values.tolist() == ['switch_id', 'tms', 't_grade']:")), "time_grading"),
+        V("twin: manual stage times by position, right order", oc, in_function("time_grading", replace_once("            protection_time_settings['t_g'] = time_settings['t_g']\n            protection_time_settings['t_gg'] = time_settings['t_gg']\n\n        if time_settings.columns.values.tolist() == ['switch_id', 'tms', 't_grade']:", "            protection_time_settings[['t_gg', 't_g']] = time_settings.iloc[:, [1, 2]].values\n\n        if time_settings.columns.values.tolist() == ['switch_id', 'tms', 't_grade']:")), None),
+        V("twin: pick-up through a local", oc, replace_once("                self.I_s = float(net_sc.line.max_i_ka.iloc[line_idx]) * self.inverse_overload_factor\n            else:\n                self.I_g = float(self.pickup_current_manual.I_g.iloc[self.switch_index])\n                self.I_gg = float(self.pickup_current_manual.I_g.iloc[self.switch_index])\n                self.I_s", "                max_i_ka = float(net_sc.line.max_i_ka.iloc[line_idx])\n                self.I_s = max_i_ka * self.inverse_overload_factor\n            else:\n                self.I_g = float(self.pickup_current_manual.I_g.iloc[self.switch_index])\n                self.I_gg = float(self.pickup_current_manual.I_g.iloc[self.switch_index])\n                self.I_s"), None),
         V("relay reads load-flow current in sc scenario", oc, in_function("protection_function", replace_once("i_ka = net.res_switch_sc.ikss_ka.at[self.switch_index]", "i_ka = net.res_switch.i_ka.at[self.switch_index]")), "scenario-sc"),
         V("fuse reads by position", fu, in_function("protection_function", replace_once("net.res_switch_sc.ikss_ka.at[self.switch_index]", "net.res_switch_sc.ikss_ka.iat[self.switch_index]")), "scenario-sc"),
         V("relay stages swapped", oc, replace_once("            if i_ka > self.I_gg:\n                self.tripped = True\n                act_time_s = self.t_gg\n            elif i_ka > self.I_g:\n                self.tripped = True\n                act_time_s = self.t_g\n            else:",
